@@ -118,6 +118,19 @@ pub fn snapshot(g: &G, n: usize) -> String {
 pub fn graph_op(g: &mut G, op: &str, a: &[&str]) -> Option<String> {
     Some(match op {
         "add" => g!(g, x => x.add_node(p::<u64>(a[0]))).to_string(),
+        // `addmany <count>`: many nodes in one op (index-width boundary); answers count of distinct returned indices,
+        // node count before / after and how many nodes the graph enumerates
+        "addmany" => {
+            let n: usize = p(a[0]);
+            let before = g!(g, x => x.number_nodes());
+            let mut seen = std::collections::HashSet::new();
+            for i in 0..n {
+                seen.insert(g!(g, x => x.add_node(i as u64)));
+            }
+            let after = g!(g, x => x.number_nodes());
+            let listed = g!(g, x => x.get_all_nodes().len());
+            format!("distinct={} before={} after={} listed={}", seen.len(), before, after, listed)
+        }
         "addroot" => g!(g, x => x.add_root_node(p::<u64>(a[0]))).to_string(),
         "rmnode" => r(g!(g, x => x.remove_node(p(a[0])))),
         "edge" => r(g!(g, x => x.add_edge(p(a[0]), p(a[1])))),
